@@ -1,0 +1,76 @@
+//go:build verif
+
+// Verification hook (build tag "verif" only): a long-lived confd client without a datastore
+// connection, driven through the same onUpdates path the syncer callback uses, for the history
+// dimension of the /verif C28 monitor.  Additive; nothing here is compiled into a normal build.
+
+package calico
+
+import (
+	"fmt"
+
+	v3 "github.com/projectcalico/api/pkg/apis/projectcalico/v3"
+
+	"github.com/projectcalico/calico/confd/pkg/backends/types"
+	"github.com/projectcalico/calico/libcalico-go/lib/backend/api"
+)
+
+// VerifClient wraps one real client for the lifetime of a generated history.
+type VerifClient struct {
+	c        *client
+	nodeName string
+}
+
+// VerifNewClient builds a client the way NewCalicoClient does, minus the datastore connection,
+// the syncer, the secret watcher and the route generator.
+func VerifNewClient(nodeName string, localSubnetV4 string) *VerifClient {
+	NodeName = nodeName
+	c := &client{
+		cache:                    map[string]string{},
+		peeringCache:             map[string]string{},
+		cacheRevision:            1,
+		revisionsByPrefix:        map[string]uint64{},
+		nodeLabelManager:         newNodeLabelManager(),
+		bgpPeers:                 map[string]*v3.BGPPeer{},
+		sourceReady:              map[string]bool{},
+		nodeListenPorts:          map[string]uint16{},
+		nodeIPs:                  map[string]struct{}{},
+		programmedRouteRefCount:  map[string]int{},
+		ExternalIPRouteIndex:     NewRouteIndex(),
+		ClusterIPRouteIndex:      NewRouteIndex(),
+		LoadBalancerIPRouteIndex: NewRouteIndex(),
+		configCache:              map[int]*bgpConfigCache{},
+		nodeMeshEnabled:          true,
+
+		serviceLoadBalancerAggregation: v3.ServiceLoadBalancerAggregationEnabled,
+	}
+	for k, v := range globalDefaults {
+		c.cache[k] = v
+	}
+	if localSubnetV4 != "" {
+		c.cache[fmt.Sprintf("/calico/bgp/v1/host/%s/network_v4", nodeName)] = localSubnetV4
+	}
+	return &VerifClient{c: c, nodeName: nodeName}
+}
+
+// OnUpdates delivers syncer updates (v3 BGPConfiguration resources, v1 IP pools, ...) through the
+// real onUpdates, synchronously.
+func (v *VerifClient) OnUpdates(updates []api.Update) {
+	NodeName = v.nodeName
+	v.c.onUpdates(updates, false)
+}
+
+// ProcessIPPools runs the real processIPPools against the client's current caches.
+func (v *VerifClient) ProcessIPPools(ipVersion int) (*types.BirdBGPConfig, error) {
+	NodeName = v.nodeName
+	config := &types.BirdBGPConfig{NodeName: v.nodeName}
+	if err := v.c.processIPPools(v.c.getBGPProcessorContext(), config, ipVersion); err != nil {
+		return nil, err
+	}
+	return config, nil
+}
+
+// ClusterRoutePolicy is what the client would currently derive from its cached BGPConfiguration.
+func (v *VerifClient) ClusterRoutePolicy() (ipip, noEncap bool) {
+	return VerifClusterRoutePolicy(v.c.getBGPConfig())
+}
